@@ -12,12 +12,17 @@ TRUSTED = ("Trusted base: shuttle 0.9.3's execution engine; the parking_lot shim
 
 CHECKS = {
  "C01": ("hist", "exploration", "Seeded simulation of single-client histories x configurations x background-thread timing on the simulated disk; every read compared with a BTreeMap reference model operation by operation. A clean batch is evidence over the explored runs.", "§3 C01", "deterministic simulation: seeded histories + scheduler-controlled background thread vs reference model"),
- "C03": ("hist", "exploration", "Seeded simulation in which snapshots/iterators outlive writes, flushes, manual and background compactions and file deletion; each is re-read against a frozen model clone and get/scan agreement is checked.", "§3 C03", "deterministic simulation: long-lived snapshots/iterators vs frozen reference models under scheduler-controlled compaction"),
+ "C02": ("crash", "fault_enumeration", "Crash points = prefixes of the totally ordered mutating-filesystem-operation log of recorded base executions (all prefixes in the thorough tier, biased sample in the quick tier), incl. nested crashes inside recovery; each recovered image is checked against the model of acknowledged writes with the in-flight batch all-or-nothing, then written to, closed and reopened. Complete over fault positions per explored execution; executions are sampled.", "§3 C02", "deterministic simulation + fault injection: crash-point enumeration over a recorded filesystem operation log with recovery simulation per image"),
+ "C03": ("hist+conc", "exploration", "Seeded simulation in which snapshots/iterators outlive writes, flushes, manual and background compactions and file deletion; each is re-read against a frozen model clone and get/scan agreement is checked.", "§3 C03", "deterministic simulation: long-lived snapshots/iterators vs frozen reference models under scheduler-controlled compaction"),
  "C04": ("hist", "exploration", "Seeded cursor programs on iterators whose underlying layout is produced by the background thread under scheduler control; model cursor compared after every step.", "§3 C04", "deterministic simulation: iterator cursor programs vs sorted-map cursor while compaction runs under the simulator's scheduler"),
- "C07": ("hist", "exploration", "Every flush / compact_range / quiesce of seeded histories is bracketed by full dumps (latest + live snapshots) that must be identical and equal to the model.", "§3 C07", "deterministic simulation: before/after dumps around flushes and compactions under controlled schedules"),
- "C09": ("hist", "exploration", "Any panic of a RainDB thread or client call, deadlock, re-entrant lock acquisition or background error in fault-free simulated runs (incl. every descriptor kind) is a violation; shuttle's deadlock detector decides hangs.", "§3 C09", "deterministic simulation: deadlock/panic detection over seeded schedules"),
- "C10": ("hist", "exploration", "Structured LSM shape checked at every quiescent point of seeded histories incl. after reopen: sorted, disjoint, exact bounds (tables read back), unique numbers; cross-checked with descriptors.", "§3 C10", "deterministic simulation: shape invariant monitored along simulated histories"),
- "C11": ("hist", "exploration", "Directory of the simulated disk compared with the needed file set after every open and after release + one reclamation opportunity + quiescence; NotFound read errors are violations.", "§3 C11", "deterministic simulation: directory-vs-needed-set invariant along simulated histories"),
+ "C05": ("conc", "exploration", "Seeded concurrent runs (2-5 client tasks + background thread) under Random/Sticky/PCT/Freeze schedulers; the invoke/return history stamped with the global event sequence is checked per key for linearizability (memoised WGL search) including the final state.", "§3 C05", "deterministic simulation: seeded schedule search (PCT, Freeze at unlock sites) + per-key linearizability check of the recorded history"),
+ "C06": ("conc", "exploration", "Writers apply same-tag batches to row groups while readers take snapshot/iterator reads; a scheduling point after every memtable insert (H4) and around the WAL append lets the scheduler park the writer anywhere inside the batch; any read showing two tags in one group is a violation.", "§3 C06", "deterministic simulation: seeded schedule search with scheduling points inside batch application + group-consistency oracle"),
+ "C07": ("hist+conc", "exploration", "Every flush / compact_range / quiesce of seeded histories is bracketed by full dumps (latest + live snapshots) that must be identical and equal to the model.", "§3 C07", "deterministic simulation: before/after dumps around flushes and compactions under controlled schedules"),
+ "C09": ("hist+conc", "exploration", "Any panic of a RainDB thread or client call, deadlock, re-entrant lock acquisition or background error in fault-free simulated runs (incl. every descriptor kind) is a violation; shuttle's deadlock detector decides hangs.", "§3 C09", "deterministic simulation: deadlock/panic detection over seeded schedules"),
+ "C10": ("hist+crash", "exploration", "Structured LSM shape checked at every quiescent point of seeded histories incl. after reopen: sorted, disjoint, exact bounds (tables read back), unique numbers; cross-checked with descriptors.", "§3 C10", "deterministic simulation: shape invariant monitored along simulated histories"),
+ "C12": ("logsim", "fault_enumeration", "Real LogWriter/LogReader on the simulated disk: complete enumeration of a block-boundary grid x {single writer, clean re-open, writer death between fragments} and truncation at every byte (small logs) or every byte around every boundary (large logs); reader output compared with the list of complete records.", "§3 C12", "fault injection on the simulated disk: truncation-offset and writer-death enumeration over a boundary grid of record lengths"),
+ "C16": ("crash", "fault_enumeration", "Every write of recorded base executions is torn at 1 byte / half / all-but-one / seeded lengths; recovery with both reuse settings, further writes crossing and not crossing the torn block, clean close and reopen are checked against the model.", "§3 C16", "deterministic simulation + fault injection: torn-write enumeration over a recorded filesystem operation log with recovery simulation per image"),
+ "C11": ("hist+conc+crash", "exploration", "Directory of the simulated disk compared with the needed file set after every open and after release + one reclamation opportunity + quiescence; NotFound read errors are violations.", "§3 C11", "deterministic simulation: directory-vs-needed-set invariant along simulated histories"),
 }
 
 NOT_APPLICABLE = {
@@ -46,6 +51,9 @@ manifest = {
     },
     "engines": [
         {"name": "hist", "path": "sim/rainsim/src/hist.rs", "serves_properties": ["C01", "C03", "C04", "C07", "C09", "C10", "C11"], "kind_free_text": "1 client task + real background compaction thread on SimFs under SimScheduler; inline reference-model oracles"},
+        {"name": "conc", "path": "sim/rainsim/src/conc.rs", "serves_properties": ["C03", "C05", "C06", "C07", "C09", "C11"], "kind_free_text": "2-5 client tasks + background thread; recorded history checked afterwards (linearizability, batch atomicity, snapshot stability, pinned files)"},
+        {"name": "crash", "path": "sim/rainsim/src/crash.rs", "serves_properties": ["C02", "C10", "C11", "C16"], "kind_free_text": "recorded base run, then one recovery simulation per crash point / torn write on the materialised image, nested crashes inside recovery"},
+        {"name": "logsim", "path": "sim/rainsim/src/logsim.rs", "serves_properties": ["C12"], "kind_free_text": "LogWriter/LogReader via verif_api on SimFs with truncation and writer-death faults"},
     ],
     "checks": [],
     "notes": "All checks: bin/check <ID> <tier> rebuilds the shadow crate from /repo's working tree (cargo, offline) and runs sim/target/release/rainsim. Exit 2 = harness error, never reported as a violation.",
